@@ -23,7 +23,7 @@ FORMAT_TWIN = True          # ambient monitor: every System matrix is also reque
 META = {
     "level_text": "Exploration: energy bookkeeping on the real System methods (E_pot, h, W_c, la_c, c) of generated systems at generated states: conservative elements do exactly the work their energy predicts, dissipative ones never create energy, compliance form and force form describe the same force. Held on the systems and states generated.",
     "level_note": "float64; energy rate by finite differences of System.E_pot with measured uncertainty; revolute states restricted to the joint manifold.",
-    "technique": "runtime energy-bookkeeping monitors with finite-difference oracle",
+    "technique": "runtime energy-bookkeeping monitors with finite-difference oracle + ambient format-twin monitor (every System matrix also requested as coo/csr/csc/array)",
 }
 CASE_TIMEOUT = 180
 KINDS = ([f"tpi:{l}" for l in forcegen.LAWS] + [f"rev:{l}" for l in forcegen.LAWS] + ["force:rigid_body", "force:point_mass", "force:rod", "lineload", "gyro"])
